@@ -57,6 +57,10 @@ pub fn enabled<P: Proto>(w: &ClientWorld<P>, cfg: &Cfg) -> Vec<(CAct, u8)> {
             if connected && healthy {
                 if unacked > 0 || w.mon.open_rels() {
                     v.push((CAct::AckOldest, 0));
+                    if cfg.prop == "C02" {
+                        // the acknowledgement arrives in two pieces, or only its first half
+                        v.push((CAct::PartialAck, 1));
+                    }
                 }
                 if unacked > 1 {
                     v.push((CAct::AckNewest, 1));
